@@ -283,14 +283,16 @@ def s3(P, R, prefix):
             pushes = [x for x in uncond_subnodes(lp["body"]) if x["k"] == "mcall" and x["name"] == "push"]
             pushed = {ctx.term(x["recv"]): ctx.term(x["args"][0]) for x in pushes}
             skips = [x for x in ir.walk(lp["body"], into_closures=False) if x["k"] in ("break", "continue")]
-            okb = len(pushes) == 3 and not skips
+            import re as _re
+            whole = bool(_re.match(r"^«[^»]+»$", it))      # the loop runs over the votes parameter itself (no skip/take/filter)
+            okb = len(pushes) == 3 and not skips and whole
             msgs = [k for k, val in pushed.items() if "«Digest».0" in val]
             sigs = [k for k, val in pushed.items() if "[*].1.flatten()" in val]
             keys_ = [k for k, val in pushed.items() if "[*].0.0" in val]
             okb = okb and len(msgs) == 1 and len(sigs) == 1 and len(keys_) == 1
             R.judge(okb, prefix + ".S3", key(vb, "one (message, signature, key) triple per vote" + tag), lp["sp"], str(pushed),
                     "verify_batch must push exactly one message (the digest), one signature (vote.1) and one key (vote.0) "
-                    "per vote with no skip; found %s, skips=%s" % (pushed, [s["sp"] for s in skips]))
+                    "per vote with no skip, over ALL votes (iterates `%s`); found %s, skips=%s" % (it, pushed, [s["sp"] for s in skips]))
             t = tail_of(vb)
             okt = False
             how = ir.pp(t, maxlen=150) if t else None
